@@ -159,3 +159,27 @@ func VP_C05_Forest() {
 	vpAssert(ok, "the same sequence of trees")
 	vpReach("end")
 }
+
+// VP_C05_Deep: a ladder tree `depth` levels deep (every level a named inner
+// node with a leaf sibling; the innermost name symbolic): deeper than any
+// fixed-size stack in a writer or reader. Written and read back identical.
+func VP_C05_Deep() {
+	depth := vpCase("depth")
+	root := &Node{Name: "r"}
+	cur := root
+	for i := 1; i < depth; i++ {
+		nx := &Node{Name: "n" + vpNum(i), Distance: float64(i%3) / 2}
+		cur.Children = []*Node{nx, {Name: "l" + vpNum(i)}}
+		cur = nx
+	}
+	cur.Name = vpName("deep", 1)
+	txt, err := root.MarshalText()
+	vpAssert(err == nil && vpCondensed(txt), "written form is condensed")
+	got := vpCollect(vpOneShot(txt), 3)
+	vpAssert(len(got) == 1 && !got[0].err, "one tree is read back")
+	if len(got) == 1 && !got[0].err {
+		vpAssert(vpSameTree(got[0].n, root), "identical shape, names and branch lengths")
+	}
+	vpObserveInt("bytes", len(txt))
+	vpReach("end")
+}
